@@ -28,6 +28,9 @@ Accepts(vs, es) == \A n \in DOMAIN es : EdgeOK(es[n], vs)
 Bind2(e, vs) == IF Known(e, vs) THEN Bind(e, vs) ELSE <<>>
 UniqueIds(vs) == \A a, b \in DOMAIN vs : vs[a].id = vs[b].id => a = b
 
+\* offset of vertex i's unknowns in the gradient / Hessian: prefix sum of the compact dimensions in LIST order
+RECURSIVE GradientIndex(_,_)
+GradientIndex(vs, i) == IF i = 1 THEN 0 ELSE GradientIndex(vs, i - 1) + CDim(vs[i - 1].kind)
 Construct(vs, es) ==
   /\ status = "unbuilt"
   /\ UniqueIds(vs)
